@@ -414,6 +414,38 @@ def variant_edges(body, sb, vi, nvariants=2):
     return out
 
 
+def known_variant_edges(crate, body, is_subject, adt_name, variant):
+    """edges on which a value of a field-less enum is known to be `variant`: an arm of `match x` / `if let`, the true
+    edge of `x == Enum::Variant`, the false edge of `x != Enum::Variant`, and for a two-variant enum the complementary
+    tests against the other variant.  is_subject(role) says whether a (stripped) role is the value asked about."""
+    adt = crate.adt_named(adt_name)
+    names = [v["name"] for v in adt["variants"]] if adt else []
+    if variant not in names:
+        return []
+    out = []
+    for sb in body.switch_blocks():
+        r = body.role_of_operand(body.blocks[sb]["term"]["discr"])
+        if r[0] == "discr" and is_subject(strip_role(r[1])):
+            out += variant_edges(body, sb, names.index(variant), nvariants=len(names))
+    for e, cond in all_cond_edges(body):
+        if cond[0] in ("eq", "ne") and len(cond) == 3:
+            a, b2, holds = strip_role(cond[1]), strip_role(cond[2]), cond[0] == "eq"
+        elif cond[0] in ("true", "false") and len(cond) >= 2:
+            r = strip_role(cond[1])
+            if not (isinstance(r, tuple) and r[0] == "call" and r[1] in ("eq", "ne") and len(r[3]) == 2):
+                continue
+            a, b2 = strip_role(r[3][0]), strip_role(r[3][1])
+            holds = (cond[0] == "true") == (r[1] == "eq")         # on this edge: a == b2
+        else:
+            continue
+        for x, y in ((a, b2), (b2, a)):
+            if is_subject(x) and isinstance(y, tuple) and y[0] == "agg" and isinstance(y[1], str) and y[1].rsplit("::", 1)[0].split("::")[-1] == adt_name.split("::")[-1]:
+                v = y[1].rsplit("::", 1)[1]
+                if (v == variant and holds) or (v != variant and not holds and len(names) == 2):
+                    out.append(e)
+    return out
+
+
 # ---------------------------------------------------------------------------- loops
 def iterator_loops(body):
     """for/while-let loops driven by Iterator::next / pop: [(bb of the switch on the Option discriminant,
